@@ -378,6 +378,69 @@ class SpearmanS(TsonisS):
     cls = "SpearmanClimateNetwork"
 
 
+class MutualInfoS(TsonisS):
+    name = "MutualInfoClimateNetwork"
+    cls = "MutualInfoClimateNetwork"
+
+    def gen(self, rng, small=True):
+        m = TsonisS.gen(self, rng, small)
+        m["thr"] = float(rng.choice([0.15, 0.3, 0.45]))
+        return m
+
+    def mutators(self):
+        base = [x for x in TsonisS.mutators(self)
+                if x[0] != "set_winter_only"]
+
+        def winter(o, m, r):
+            # dump=False: the default stores the matrix in a file that later
+            # objects of the same size reload by design
+            o.set_winter_only(not m["winter"], dump=False)
+            return {**m, "winter": not m["winter"], "attrs": {}}
+        return base + [("set_winter_only", winter)]
+
+
+class HavlinS(Subject):
+    name = "HavlinClimateNetwork"
+    attrs = NET_ATTRS
+    deny = NetworkS.deny
+
+    def gen(self, rng, small=True):
+        m = TsonisS().gen(rng, small)
+        m["delay"] = int(rng.integers(2, 5))
+        m["thr"] = float(rng.choice([1.5, 2.0, 2.5, 3.0]))
+        del m["winter"]
+        return m
+
+    def build(self, m):
+        from pyunicorn.climate import HavlinClimateNetwork
+        from pvm.gen.objects import climate_data
+        cd = climate_data(_c(m["obs"]), m["lat"], m["lon"], cycle=12)
+        net = HavlinClimateNetwork(cd, max_delay=m["delay"],
+                                   threshold=m["thr"],
+                                   non_local=m["non_local"], silence_level=3)
+        for k, W in m["attrs"].items():
+            net.set_link_attribute(k, W)
+        return net
+
+    def mutators(self):
+        def thr(o, m, r):
+            t = float(r.choice([t for t in (1.2, 1.8, 2.2, 2.8, 3.4)
+                                if t != m["thr"]]))
+            o.set_threshold(t)
+            return {**m, "thr": t, "attrs": {}}
+
+        def delay(o, m, r):
+            d = int(r.choice([d for d in (2, 3, 4, 5) if d != m["delay"]]))
+            o.set_max_delay(d)
+            return {**m, "delay": d, "attrs": {}}
+
+        def nonloc(o, m, r):
+            o.set_non_local(not m["non_local"])
+            return {**m, "non_local": not m["non_local"], "attrs": {}}
+        return [("set_threshold", thr), ("set_max_delay", delay),
+                ("set_non_local", nonloc)]
+
+
 # ---------------------------------------------------------------------------
 # recurrence family
 
@@ -829,7 +892,8 @@ def purity_only_subjects():
 
 def all_subjects():
     return [NetworkS(False), NetworkS(True), InteractingS(), GeoNetworkS(),
-            ClimateNetworkS(), TsonisS(), SpearmanS(), RecurrencePlotS(),
+            ClimateNetworkS(), TsonisS(), SpearmanS(), MutualInfoS(), HavlinS(),
+            RecurrencePlotS(),
             RecurrenceNetworkS(), JointRecurrencePlotS(),
             JointRecurrenceNetworkS(), CrossRecurrencePlotS(), ISRNS(),
             ResNetworkS(), ClimateDataS(), SurrogatesS()]
